@@ -37,15 +37,17 @@ def body_for(grammar):
 
 
 def spell(comps):
-    return ".".join(comps)
+    # TLC strings are ASCII: the component "uname" stands for a non-ASCII component (2-byte and 3-byte letters)
+    u = "caf\u00e9\u65e5"
+    return ".".join(u if c == "uname" else c for c in comps)
 
 
 def run(chk):
     quick = chk.tier == "quick"
     chk.rule = ("TLC enumerates every base name of <= MaxComp dot-separated components over {x, X, empty, bak, d, ts, go, "
-                "mod, sum, Makefile, makefile, py, PY, rs, md, cxx} x {no remapping, one of 7 -E remappings (registered -> "
+                "mod, sum, Makefile, makefile, py, PY, rs, md, cxx} x {no remapping, one of 9 -E remappings (registered -> "
                 "registered, unknown -> registered, unknown -> unknown, onto a compound suffix, of a compound key)} and "
-                "checks the dot-walk against GrammarOf with the 39-entry table as a constant; each name is created in a "
+                "MAKEFILE, Gemfile, a non-ASCII component; + 2 remappings: upper-case whole-name key, non-ASCII key) and checks the dot-walk against GrammarOf with the 39-entry table as a constant; each name is created in a "
                 "directory whose names contain dots, with a body valid only in the expected family's comment syntax; "
                 "plus every registered suffix as x.SUFFIX, x.y.SUFFIX, .x.SUFFIX, x.SUFFIX.bak, upper-cased; non-trivial = "
                 "name that maps to a grammar or a rejected remapping")
@@ -53,7 +55,9 @@ def run(chk):
     chk.add_tlc(res, "MC_C16")
     cases_tlc = res.cases
     chk.rng.shuffle(cases_tlc)
-    plan = [c for c in cases_tlc if spell(c["name"]) not in ("", ".", "..", "...")][:1500 if quick else 30000]
+    ok_name = lambda c: spell(c["name"]) not in ("", ".", "..", "...")
+    short = [c for c in cases_tlc if ok_name(c) and len(c["name"]) <= 2]          # every short name x every remapping, always
+    plan = short + [c for c in cases_tlc if ok_name(c) and len(c["name"]) > 2][:1500 if quick else 40000]
     # every registered suffix in the shapes the statement lists (expected grammar from the spec's table via TLC:
     # the table is emitted below as a second TLC artefact = cases with single-suffix names)
     import langs
